@@ -338,18 +338,32 @@ def register(hub, exhaustive: bool, rng, prop="C04", max_pairs=24):
             combos, full = pick((pt, ps) for pt in itertools.permutations(ts.letters) for ps in itertools.permutations(ss.letters))
         elif is_real_number(rhs):
             combos, full = pick((pt, None) for pt in itertools.permutations(ts.letters))
+        elif isinstance(rhs, np.ndarray) and isinstance(key, dict) and rhs.dtype.kind in "fiu":
+            # a bare array fills the addressed region axis by axis, the region's axes being the target's dimensions (in ITS storage
+            # order) without the singly addressed ones: for a permuted target the same labelled block is the transposed array
+            sel, status, _ = parse_key(fd, ts, key)
+            region = [l for l in ts.letters if sel.get(l, ("all",))[0] != "single"]
+            if status != "ok" or rhs.ndim != len(region) or rhs.ndim < 1:
+                return
+            combos, full = pick((pt, "ndarray") for pt in itertools.permutations(ts.letters))
+            ss = None
         else:
-            return  # bare ndarrays are positional by definition
+            return  # other right-hand sides are positional by definition
         if len(ts.letters) < 2 and (ss is None or len(ss.letters) < 2):
             return
         target_after = Snap(call.args[0])
         exact = exactish(ts, ss) if isinstance(ss, Snap) else exactish(ts)
         n = 0
         for pt, ps in combos:
-            if pt == ts.letters and (ps is None or ps == ss.letters):
+            if pt == ts.letters and (ps is None or ps == "ndarray" or ps == ss.letters):
                 continue
             tp = rebuild(fd, ts, pt)
-            sp = rebuild(fd, ss, ps) if ps is not None else rhs
+            if ps == "ndarray":
+                region_p = [l for l in pt if l in region]
+                sp = np.ascontiguousarray(np.transpose(np.array(call.pre[2] if isinstance(call.pre[2], np.ndarray) else rhs), [region.index(l) for l in region_p]))
+                ps = None
+            else:
+                sp = rebuild(fd, ss, ps) if ps is not None else rhs
             _, e = outcome(lambda: tp.__setitem__(key, sp))
             n += 1
             desc = dict(target_order=list(pt), source_order=list(ps) if ps else None, target_dims=list(ts.letters), source_dims=list(ss.letters) if isinstance(ss, Snap) else None, key=repr(key)[:160])
